@@ -232,26 +232,28 @@ def run_shard(desc):
             names = [("w%d" % i if i % 2 == 0 else "wf%d" % i) for i in range(nn)]
             plans = []
             reg_plan_a, reg_plan_b = [], []
+            import os
+            block = 400 if profile == "release" else 200
+            if os.environ.get("VERIF_TOOL") == "miri":
+                block, E = 3, min(E, 3)
+            elif os.environ.get("VERIF_TOOL"):
+                block = 80
+            # logical clock: every evaluation ticks; the registrar of name i waits until the evaluators are in the
+            # middle of their block of evaluations of name i, so the registration races evaluations of that name
+            reg_plan_a, reg_plan_b = [], []
             for i, nm in enumerate(names):
-                tgt = reg_plan_a if i % 4 < 2 else reg_plan_b
-                tgt.append({"op": "sleep_ms", "ms": rnd.choice([0, 1, 1, 2])})
+                tgt = reg_plan_a if i % 2 == 0 else reg_plan_b
+                tgt.append({"op": "wait_tick", "n": i * 4 * E + rnd.randint(E, 3 * E)})
                 if nm.startswith("wf"):
                     tgt.append({"op": "reg_fn", "name": nm, "beh": {"id": 8000 + i, "ret": "tag"}})
                 else:
                     tgt.append({"op": "reg_infix", "name": nm, "prec": 115, "type": "CALC", "assoc": "LEFT", "beh": {"id": 8000 + i, "ret": "tag"}})
             plans = [reg_plan_a, reg_plan_b]
-            import os
-            iters = 150 if profile == "release" else 80
-            if os.environ.get("VERIF_TOOL") == "miri":
-                iters, E = 4, min(E, 4)
-            elif os.environ.get("VERIF_TOOL"):
-                iters = 40
             for e in range(E):
                 plan = []
-                for it in range(iters):
-                    i = (it // 3 + e) % nn
-                    nm = names[i]
-                    plan.append({"op": "exec", "text": ("%s(1)" % nm) if nm.startswith("wf") else ("6 %s 4" % nm), "tag": nm})
+                for i, nm in enumerate(names):
+                    for it in range(4):
+                        plan.append({"op": "hammer", "tick": True, "n": block, "text": ("%s(1)" % nm) if nm.startswith("wf") else ("6 %s 4" % nm), "tag": nm})
                 plans.append(plan)
             steps = [{"op": "exec", "text": "1 + 1"}, {"op": "threads", "plans": plans, "jitter_ns": [0] * len(plans)}]
             run = common.run_vexec(steps, wd, "st-%d-%d" % (si, h), profile, timeout=600)
@@ -282,29 +284,31 @@ def run_shard(desc):
                     nm = r.get("tag")
                     if nm not in writes:
                         continue
-                    part["evaluations"] += 1
-                    C["raced_reads"] = C.get("raced_reads", 0) + 1
                     w0, w1, hid = writes[nm]
-                    res = r.get("res")
                     if nm.startswith("wf"):
                         post = {"ok": ["l", [["n", str(hid), 0], ["n", "1", 0]]]}
-                        is_pre = isinstance(res, dict) and "err" in res
                     else:
                         post = {"ok": ["l", [["n", str(hid), 0], ["n", "6", 0], ["n", "4", 0]]]}
-                        is_pre = res == {"ok": ["n", "4", 0]}
-                    is_post = res == post
-                    if not (is_pre or is_post):
-                        viol(["torn-read", "stress"], "evaluating a program naming `%s` concurrently with its registration returned %s: neither the unregistered nor the registered behaviour" % (nm, json.dumps(res or r.get("perr") or r.get("ppanic"))), None)
-                    elif is_pre and r["t0"] > w1:
-                        viol(["stale-read", "stress"], "an evaluation of `%s` called %.3f ms AFTER register returned still behaved as if it were unregistered (result %s)" % (nm, (r["t0"] - w1) / 1e6, json.dumps(res)), None)
-                    elif is_post and r["t1"] < w0:
-                        viol(["future-read", "stress"], "an evaluation of `%s` that returned before register was called already saw it" % nm, None)
-                    elif is_pre and nm in seen_post:
-                        viol(["non-monotonic-read", "stress"], "a thread saw `%s` registered and later unregistered again" % nm, None)
-                    else:
-                        part["classes"].add("stress:%s:%s" % ("fn" if nm.startswith("wf") else "infix", "pre" if is_pre else "post"))
-                    if is_post:
-                        seen_post.add(nm)
+                    for sg in r.get("segs", []):
+                        res = sg["res"]
+                        part["evaluations"] += sg["count"]
+                        C["raced_reads"] = C.get("raced_reads", 0) + sg["count"]
+                        is_pre = (isinstance(res, dict) and "err" in res and "NotRegistered" in res["err"] and nm.startswith("wf")) or (res == {"ok": ["n", "4", 0]} and not nm.startswith("wf"))
+                        is_post = res == post
+                        if not (is_pre or is_post):
+                            viol(["torn-read", "stress"], "evaluating a program naming `%s` concurrently with its registration returned %s (%d times): neither the unregistered nor the registered behaviour" % (nm, json.dumps(res), sg["count"]), None)
+                        elif is_pre and sg["last_t0"] > w1:
+                            viol(["stale-read", "stress"], "an evaluation of `%s` called %.3f ms AFTER register returned still behaved as if it were unregistered (result %s)" % (nm, (sg["last_t0"] - w1) / 1e6, json.dumps(res)), None)
+                        elif is_post and sg["last_t1"] < w0 or (is_post and sg["first_t0"] < w0 and sg["count"] == 1 and sg["last_t1"] < w0):
+                            viol(["future-read", "stress"], "an evaluation of `%s` that returned before register was called already saw it" % nm, None)
+                        elif is_pre and nm in seen_post:
+                            viol(["non-monotonic-read", "stress"], "a thread saw `%s` registered and later unregistered again" % nm, None)
+                        else:
+                            part["classes"].add("stress:%s:%s" % ("fn" if nm.startswith("wf") else "infix", "pre" if is_pre else "post"))
+                        if is_post:
+                            seen_post.add(nm)
+                    if len(r.get("segs", [])) >= 2:
+                        C["reads_overlapping_a_registration"] = C.get("reads_overlapping_a_registration", 0) + 1
     C["distinct_interleavings"] = len(orders)
     part["classes"].update("order:" + o for o in list(orders)[:400])
     part["classes"] = sorted(part["classes"])
